@@ -134,32 +134,39 @@ def cluster_cmp(out, Qr, ev, u, n, normA, C=256.0, probe=None):
     return ok, nonvac, worst
 
 
-def match_orth_iter(out, A64, Q0_64, max_iter, u, C=256.0, gen=None):
+def match_orth_iter(out, A64, Q0_64, max_iter, u, C=256.0, gen=None, n_probes=2):
     """Is `out` the k-fold orthogonal-iteration update of Q0 for SOME 1<=k<=max_iter (Rayleigh-sorted)?
-    Clusters on which the float64 reference is itself sensitive to a rounding-level perturbation of the estimate
-    (unstable fixed points, rank-deficient A@Q) are not compared.
+    The float64 reference is re-run `n_probes` times with emulated working-precision rounding noise; wherever any probe moves a
+    cluster of the reference (unstable fixed points, rank-deficient A@Q), nothing is compared at that k (vacuous).
     Returns (matched, best_k, nonvacuous_clusters, worst_ratio_of_best)."""
     n = A64.shape[0]
     normA = float(torch.linalg.matrix_norm(A64, 2)) if n > 0 else 0.0
     out = out.to(D)
     best = None
     Q = Q0_64
-    Qp = None
+    Qps = []
     if gen is not None:
-        Qp = torch.linalg.qr(Q0_64 + 8 * u * torch.randn(n, n, generator=gen, dtype=D)).Q
+        for _ in range(n_probes):
+            Qps.append(torch.linalg.qr(Q0_64 + 8 * u * torch.randn(n, n, generator=gen, dtype=D)).Q)
     for k in range(1, max_iter + 1):
         Q = torch.linalg.qr(A64 @ Q).Q
         ev = torch.einsum("ij,ik,kj->j", Q, A64, Q)
         o = ev.argsort()
-        probe = None
-        if Qp is not None:
+        stable = True
+        for i, Qp in enumerate(Qps):
             # emulate working-precision arithmetic: rounding noise of the product fl(A@Q), elementwise ~ u*(|A||Q|)
             Mp = A64 @ Qp
             Mp = Mp + 8 * u * (A64.abs() @ Qp.abs()) * torch.randn(n, n, generator=gen, dtype=D)
             Qp = torch.linalg.qr(Mp).Q
+            Qps[i] = Qp
             evp = torch.einsum("ij,ik,kj->j", Qp, A64, Qp)
-            probe = Qp[:, evp.argsort()]
-        ok, nv, worst = cluster_cmp(out, Q[:, o], ev[o], u, n, normA, C, probe)
+            okp, nvp, _ = cluster_cmp(Qp[:, evp.argsort()], Q[:, o], ev[o], u, n, normA, C, probe=Qp[:, evp.argsort()])
+            if nvp == 0:
+                stable = False
+        if not stable:
+            ok, nv, worst = True, 0, 0.0
+        else:
+            ok, nv, worst = cluster_cmp(out, Q[:, o], ev[o], u, n, normA, C, None)
         if ok and (best is None or nv > best[1]):
             best = (k, nv, worst)
     if best is None:
